@@ -13,7 +13,7 @@ TABLE = {
         "module": "AcqVerif.Props.C04",
         "theorems": ["AcqVerif.C04.stored_is_a_prefix_of_the_camera_frames", "AcqVerif.C04.storage_gets_consecutive_committed_frames",
                      "AcqVerif.C04.committed_frames_are_the_camera_frames", "AcqVerif.C04.channel_used_within_its_rules",
-                     "AcqVerif.C04.undisturbed_acquisition_is_complete", "AcqVerif.Runtime.DEnd.micro", "AcqVerif.Runtime.DFin.micro",
+                     "AcqVerif.C04.undisturbed_acquisition_is_complete", "AcqVerif.C04.stopped_undisturbed_acquisition_is_complete", "AcqVerif.Runtime.DStop.micro", "AcqVerif.Runtime.DEnd.micro", "AcqVerif.Runtime.DFin.micro",
                      "AcqVerif.Runtime.DUse.micro", "AcqVerif.Runtime.DLog.micro", "AcqVerif.Runtime.DId.micro"],
         "classes": ["single", "two", "mon", "slowmon", "restart", "delay", "abort", "stofault", "camempty"],
         "kinds": ("stored-", "camera-delivered", "packet-", "never-returns", "CRASH"),
